@@ -36,7 +36,7 @@ M64 = 1 << 64
 
 
 def gen_proofs():
-    """Text of specs/Align_proofs.tla (17 concrete instances x 6 theorems)."""
+    """Text of specs/Align_proofs.tla (17 concrete instances x 6 theorems + 2 lemmas)."""
     out = ["""--------------------------- MODULE Align_proofs ---------------------------
 (***************************************************************************)
 (* TLAPS proofs for Align.tla (C29): for each of the 17 supported          *)
@@ -49,6 +49,7 @@ def gen_proofs():
 (*   Mod_k     AlignModulo(a,r,v) >= AlignUp(a,v), congruent to r mod a,   *)
 (*             less than a above AlignUp(a,v)                              *)
 (*   ModLeast_k every x >= AlignUp(a,v) congruent to r is >= AlignModulo   *)
+(*   (via ModClosed_k: AlignModulo(a,r,v) = AlignUp(a,v) + r % a)          *)
 (* Checked with `tlapm Align_proofs.tla` (generated file: do not edit by   *)
 (* hand; the generator is in harness/py/checks/c29.py: gen_proofs()).      *)
 (***************************************************************************)
@@ -65,11 +66,25 @@ THEOREM Down_{k} == \\A v \\in Nat : IsAlignDown({a}, v, AlignDown({a}, v))
   BY Z3 DEF IsAlignDown, AlignDown
 THEOREM DownGreatest_{k} == \\A v \\in Nat, x \\in Nat : (x % {a} = 0 /\\ x <= v) => x <= AlignDown({a}, v)
   BY Z3 DEF AlignDown
+LEMMA UpNat_{k} == \\A v \\in Nat : AlignUp({a}, v) \\in Nat /\\ AlignUp({a}, v) % {a} = 0
+  BY Z3 DEF AlignUp
+LEMMA ModClosed_{k} == \\A v \\in Nat, r \\in Nat : AlignModulo({a}, r, v) = AlignUp({a}, v) + (r % {a})
+  BY UpNat_{k}, Z3T(30) DEF AlignModulo
 THEOREM Mod_{k} == \\A v \\in Nat, r \\in Nat : IsAlignModulo({a}, r, v, AlignModulo({a}, r, v))
-  BY Z3 DEF IsAlignModulo, AlignModulo, AlignUp
+<1> TAKE v \\in Nat, r \\in Nat
+<1>1. AlignUp({a}, v) \\in Nat /\\ AlignUp({a}, v) % {a} = 0
+  BY UpNat_{k}
+<1>2. AlignModulo({a}, r, v) = AlignUp({a}, v) + (r % {a})
+  BY ModClosed_{k}
+<1>3. r % {a} \\in 0..{a - 1}
+  BY Z3
+<1>4. (AlignUp({a}, v) + (r % {a})) % {a} = r % {a}
+  BY <1>1, <1>3, Z3T(30)
+<1> QED
+  BY <1>1, <1>2, <1>3, <1>4, Z3T(30) DEF IsAlignModulo
 THEOREM ModLeast_{k} == \\A v \\in Nat, r \\in Nat, x \\in Nat :
     (x >= AlignUp({a}, v) /\\ x % {a} = r % {a}) => x >= AlignModulo({a}, r, v)
-  BY Z3 DEF AlignModulo, AlignUp""")
+  BY UpNat_{k}, ModClosed_{k}, Z3T(30)""")
     out.append("\n=============================================================================\n")
     return "\n".join(out)
 
@@ -120,7 +135,7 @@ def model_check(ctx, cov):
 
     def one(c):
         cfg, to = c
-        return cfg, tlc.run_tlc("MCAlign", cfg, workers=2, timeout=to, coverage=False)
+        return cfg, tlc.run_tlc("MCAlign", cfg, workers=4 if "thorough" in cfg else 2, timeout=to, coverage=False)
 
     with ThreadPoolExecutor(max_workers=3) as ex:
         results = list(ex.map(one, cfgs))
@@ -137,7 +152,7 @@ def model_check(ctx, cov):
             raise ToolError(f"{cfg}: {r.distinct} states but {len(r.records)} REPLAY records")
         states += r.distinct
         trans += r.generated
-        records += r.records
+        records += [x for x in r.records if x["kind"] != "pre"]
     if broken.ok or broken.violated != "QfCorrect":
         raise ToolError("broken align_up variant was NOT rejected by TLC: invariants are vacuous")
     runs.append({"cfg": "mc/Align_broken.cfg", "expected_violation": broken.violated})
@@ -230,6 +245,7 @@ def run(ctx):
 
     # ---- (c) 64-bit boundary values against the proved characterisation
     reqs, meta = [], []
+    unrep_boundary = 0
     for k in range(17):
         a = 1 << k
         vals = boundary_values(a)
@@ -247,7 +263,7 @@ def run(ctx):
                     reqs.append({"op": "modulo", "exp": k, "ref": r, "v": v})
                     meta.append(("modulo", a, v, r))
                 else:
-                    meta_unrep[0] += 1
+                    unrep_boundary += 1
     res = run_conf("align", reqs, timeout=600)
     boundary = 0
     for q, (op, a, v, r), got in zip(reqs, meta, res):
@@ -289,8 +305,7 @@ def run(ctx):
     cov["traces_validated_against_impl"] = replayed
     cov["boundary_cases_64bit"] = boundary
     cov["random_evaluations_64bit"] = random_eval
-    cov["unrepresentable_inputs_skipped"] = unrep + meta_unrep[0]
-    meta_unrep[0] = 0
+    cov["unrepresentable_inputs_skipped"] = unrep + unrep_boundary
     cov["samples"] = trim_samples(cov["samples"], 5, 600)
     return {
         "level": "model_checking",
@@ -302,5 +317,3 @@ def run(ctx):
         ],
     }
 
-
-meta_unrep = [0]
